@@ -329,23 +329,43 @@ theorem complUid_known {s : St} {p : Nat} (h : Known s p) : complUid s p = p := 
 theorem complUid_unknown {s : St} {p : Nat} (h : ¬ Known s p) : complUid s p = notAUid := by
   unfold complUid; exact if_neg h
 
-/-- a known peer can only act for itself -/
-theorem effOwner_known_peer {s : St} {p : Nat} (hk : Known s p) {owner : Option Nat} {e : Nat}
+/-- a socket peer (any `p` other than "no peer") can only act for itself -/
+theorem effOwner_peer {s : St} {p : Nat} (hp : p ≠ notAUid) {owner : Option Nat} {e : Nat}
     (he : effOwner s owner p = some e) : e = p := by
-  obtain ⟨_, _, _, h4⟩ := effCore_some he
-  rw [complUid_known hk] at h4
+  obtain ⟨hg, hc⟩ := effOwner_some he
+  have hcu : complUid s p ≠ notAUid := by
+    rcases hg with hg | hg
+    · exact absurd hg hp
+    · exact hg
+  obtain ⟨_, _, _, h4⟩ := effCore_some hc
+  rw [(complUid_ne hcu).1] at h4
   rcases h4 with h4 | h4
-  · exact absurd h4 hk.1
+  · exact absurd h4 hp
   · exact h4.symm
 
-theorem actOwner_known_peer {s : St} {p : Nat} (hk : Known s p) {i : Instr} {e : Nat}
+/-- a known peer can only act for itself -/
+theorem effOwner_known_peer {s : St} {p : Nat} (hk : Known s p) {owner : Option Nat} {e : Nat}
+    (he : effOwner s owner p = some e) : e = p := effOwner_peer hk.1 he
+
+theorem actOwner_peer {s : St} {p : Nat} (hp : p ≠ notAUid) {i : Instr} {e : Nat}
     (he : actOwner s p i = some e) : e = p := by
   cases i with
-  | sched uid owner ms dur occ isTask => exact effOwner_known_peer hk he
+  | sched uid owner ms dur occ isTask => exact effOwner_peer hp he
   | cancel uid => cases he; rfl
 
-/-- a whole request of a known peer: records of other owners are neither added, removed nor changed -/
-theorem applyAll_others (p : Nat) : ∀ (ins : List Instr) (s : St), Inv s → Known s p →
+theorem actOwner_known_peer {s : St} {p : Nat} (hk : Known s p) {i : Instr} {e : Nat}
+    (he : actOwner s p i = some e) : e = p := actOwner_peer hk.1 he
+
+/-- a given peer the password database does not know is refused -/
+theorem inject_unknown_peer {s : St} {p : Nat} (hp : p ≠ notAUid) (hk : ¬ Known s p) (uid : String)
+    (owner : Option Nat) (ms dur : Nat) (occ : List Nat) (isTask : Bool) :
+    inject s uid owner ms dur occ isTask p = (s, false) := by
+  rw [inject_eq]
+  unfold injectSpec
+  rw [effOwner_refused ⟨hp, complUid_unknown hk⟩]
+
+/-- a whole request of a socket peer: records of other owners are neither added, removed nor changed -/
+theorem applyAll_others (p : Nat) : ∀ (ins : List Instr) (s : St), Inv s → p ≠ notAUid →
     (∀ i ∈ ins, instrSorted i) → ∀ t : DTask, t.owner ≠ p →
     (t ∈ (applyAll s p ins).1.tasks ↔ t ∈ s.tasks) := by
   intro ins
@@ -354,10 +374,8 @@ theorem applyAll_others (p : Nat) : ∀ (ins : List Instr) (s : St), Inv s → K
   | cons i r ih =>
     intro s h hk hs t hne
     simp only [applyAll]
-    have hk' : Known (applyInstr s p i).1 p := by
-      unfold Known; rw [(applyInstr_frame s p i).users]; exact hk
-    rw [ih _ (Inv_applyInstr h p i (hs i List.mem_cons_self)) hk' (fun j hj => hs j (List.mem_cons_of_mem _ hj)) t hne]
-    exact applyInstr_others h p i (fun e he => by rw [actOwner_known_peer hk he]; exact hne)
+    rw [ih _ (Inv_applyInstr h p i (hs i List.mem_cons_self)) hk (fun j hj => hs j (List.mem_cons_of_mem _ hj)) t hne]
+    exact applyInstr_others h p i (fun e he => by rw [actOwner_peer hk he]; exact hne)
 
 theorem cmdIcal_tasks (s : St) (p : Nat) (ins : List Instr) :
     (cmdIcal s p ins).1.tasks = (applyAll s p ins).1.tasks := by
@@ -367,14 +385,14 @@ theorem cmdIcal_tasks (s : St) (p : Nat) (ins : List Instr) :
   · exact addChkpnt_tasks _ _
   · rfl
 
-/-- `isolation`: a request of the known user `p` leaves every record owned by somebody else as it is -/
-theorem cmdIcal_others {s : St} (h : Inv s) {p : Nat} (hk : Known s p) (ins : List Instr)
+/-- `isolation`: a request of the socket peer `p` leaves every record owned by somebody else as it is -/
+theorem cmdIcal_others {s : St} (h : Inv s) {p : Nat} (hk : p ≠ notAUid) (ins : List Instr)
     (hs : ∀ i ∈ ins, instrSorted i) (t : DTask) (hne : t.owner ≠ p) :
     t ∈ (cmdIcal s p ins).1.tasks ↔ t ∈ s.tasks := by
   rw [cmdIcal_tasks]; exact applyAll_others p ins s h hk hs t hne
 
 /-- … hence the map at every key owned by somebody else -/
-theorem cmdIcal_absMap_others {s : St} (h : Inv s) {p : Nat} (hk : Known s p) (ins : List Instr)
+theorem cmdIcal_absMap_others {s : St} (h : Inv s) {p : Nat} (hk : p ≠ notAUid) (ins : List Instr)
     (hs : ∀ i ∈ ins, instrSorted i) (k : String) (o : Nat) (hne : o ≠ p) :
     absMap (cmdIcal s p ins).1 k = some o ↔ absMap s k = some o := by
   rw [absMap_eq_some_iff h, absMap_eq_some_iff (Inv_cmdIcal h p ins hs)]
@@ -412,6 +430,51 @@ theorem effCore_user {s : St} (hme : s.me ≠ 0) (oc uc e : Nat) :
   unfold effCore
   by_cases h1 : uc = notAUid <;> by_cases h2 : oc = notAUid <;> by_cases h3 : oc = uc <;>
     by_cases h4 : oc = s.me <;> by_cases h5 : uc = s.me <;> simp_all <;> grind
+
+theorem effOwner_gate {s : St} (owner : Option Nat) (peer : Nat) (e : Nat) :
+    effOwner s owner peer = some e ↔
+      (peer = notAUid ∨ complUid s peer ≠ notAUid) ∧ effCore s (ownerC s owner) (complUid s peer) = some e := by
+  constructor
+  · exact effOwner_some
+  · rintro ⟨hg, hc⟩
+    rw [effOwner_core (fun c => by rcases hg with hg | hg; exact c.1 hg; exact hg c.2)]
+    exact hc
+
+theorem complUid_notAUid (s : St) : complUid s notAUid = notAUid := by
+  unfold complUid; exact if_neg (fun c => c.1 rfl)
+
+theorem effOwner_root' {s : St} (hme : s.me = 0) (owner : Option Nat) (peer e : Nat) :
+    effOwner s owner peer = some e ↔
+      e ≠ notAUid ∧ ((complUid s peer = e ∧ (ownerC s owner = notAUid ∨ ownerC s owner = e)) ∨
+        (peer = notAUid ∧ ownerC s owner = e)) := by
+  rw [effOwner_gate, effCore_root hme]
+  constructor
+  · rintro ⟨hg, he, h1 | ⟨h1, h2⟩⟩
+    · exact ⟨he, Or.inl h1⟩
+    · rcases hg with hg | hg
+      · exact ⟨he, Or.inr ⟨hg, h2⟩⟩
+      · exact absurd h1 hg
+  · rintro ⟨he, ⟨h1, h2⟩ | ⟨h1, h2⟩⟩
+    · exact ⟨Or.inr (by rw [h1]; exact he), he, Or.inl ⟨h1, h2⟩⟩
+    · exact ⟨Or.inl h1, he, Or.inr ⟨by rw [h1]; exact complUid_notAUid s, h2⟩⟩
+
+theorem effOwner_user' {s : St} (hme : s.me ≠ 0) (owner : Option Nat) (peer e : Nat) :
+    effOwner s owner peer = some e ↔
+      e ≠ notAUid ∧ ((complUid s peer = e ∧ ownerC s owner = e) ∨
+        (complUid s peer = e ∧ ownerC s owner = notAUid ∧ e = s.me) ∨
+        (peer = notAUid ∧ ownerC s owner = e ∧ e = s.me)) := by
+  rw [effOwner_gate, effCore_user hme]
+  constructor
+  · rintro ⟨hg, he, h1 | h1 | ⟨h1, h2⟩⟩
+    · exact ⟨he, Or.inl h1⟩
+    · exact ⟨he, Or.inr (Or.inl h1)⟩
+    · rcases hg with hg | hg
+      · exact ⟨he, Or.inr (Or.inr ⟨hg, h2⟩)⟩
+      · exact absurd h1 hg
+  · rintro ⟨he, ⟨h1, h2⟩ | ⟨h1, h2⟩ | ⟨h1, h2⟩⟩
+    · exact ⟨Or.inr (by rw [h1]; exact he), he, Or.inl ⟨h1, h2⟩⟩
+    · exact ⟨Or.inr (by rw [h1]; exact he), he, Or.inr (Or.inl ⟨h1, h2⟩)⟩
+    · exact ⟨Or.inl h1, he, Or.inr (Or.inr ⟨by rw [h1]; exact complUid_notAUid s, h2⟩)⟩
 
 /-! ### replies -/
 
